@@ -1,7 +1,8 @@
 //! C01 — routing. Real code: `log4rs::Logger::new(config)` + `log::Log::log`, with one capturing
 //! `Append` per declared appender that records its own name per call into a shared vector.
 //! case:   appenders(,)  rootLevel  rootRefs(,)  loggers(, of name;level;additive;refs(|))  probes(, of target;level)
-//!         optional 6th field failing(,): these appenders record the call and then return Err
+//!         optional 6th field failing(,): these appenders record the call and then return Err (`-` = none)
+//!         optional fields 7-10: the same configuration declared in another order; obs = first#second
 //! obs:    per probe (,) the sequence (;) of appender names called (`~` none);
 //!         with the 6th field: calls!errors (errors = what reached the error handler, in order)
 use crate::proto::*;
@@ -123,9 +124,17 @@ pub fn build_config(c: &Cfg, sink: &Arc<Mutex<Vec<String>>>) -> Result<Config, S
 /// … where the appenders named in `failing` return Err from `append` (after recording the call)
 pub fn build_config_f(c: &Cfg, sink: &Arc<Mutex<Vec<String>>>, failing: &[String]) -> Result<Config, String> {
     let mut b = Config::builder();
+    // A third of the configurations (decided by content) put a filter that answers Neutral to every record on
+    // every appender, so that the filter loop of `Appender::append` (lib.rs) is executed under C01 as well;
+    // filters that decide anything are C03's subject.
+    let with_filter = (c.loggers.len() + c.root_refs.len()) % 3 == 0;
     for a in &c.appenders {
         let cap = Capture { name: a.clone(), sink: sink.clone(), fail: failing.contains(a) };
-        b = b.appender(Appender::builder().build(a.clone(), Box::new(cap)));
+        let mut ab = Appender::builder();
+        if with_filter {
+            ab = ab.filter(Box::new(log4rs::filter::threshold::ThresholdFilter::new(LevelFilter::Trace)));
+        }
+        b = b.appender(ab.build(a.clone(), Box::new(cap)));
     }
     for l in &c.loggers {
         b = b.logger(
@@ -157,10 +166,29 @@ pub fn render_names(ns: &[String]) -> String {
 // ------------------------------------------------------------------------------------------------
 // generator
 // ------------------------------------------------------------------------------------------------
-const COMPS: &[&str] = &["a", "b", "ab", "bb", "a", "b", "é", "日本", "a_b", "B"];
-const APPS: &[&str] = &["x", "y", "z", "ω"];
-pub const SPECIAL_TARGETS: &[&str] =
-    &["", ":", "a:::b", "a::", "::", "::a", "a::::b", "a:b", "a::b:", ":a::b", "a::b::", "::::", "é", "a::é::日本"];
+const COMPS: &[&str] = &["a", "b", "ab", "bb", "a", "b", "é", "日本", "a_b", "B", "😀", "a b"];
+const APPS: &[&str] = &["x", "y", "z", "ω", "v", "😀w"];
+pub const SPECIAL_TARGETS: &[&str] = &[
+    "", ":", "a:::b", "a::", "::", "::a", "a::::b", "a:b", "a::b:", ":a::b", "a::b::", "::::", "é", "a::é::日本",
+    " a", "a ", "a ::b", "a\t", "a:: b", "😀", "a::😀", "a::b\u{0}", "a\n::b",
+];
+
+fn odd_targets(rng: &mut Rng, c: &Cfg) -> Vec<String> {
+    let mut t = vec![];
+    // twelve and more components, below a configured name when there is one
+    let base = if c.loggers.is_empty() { "a".to_string() } else { rng.pick(&c.loggers).name.clone() };
+    let d = rng.range(12, 20);
+    let tail: Vec<&str> = (0..d).map(|_| *rng.pick(COMPS)).collect();
+    t.push(format!("{}::{}", base, tail.join("::")));
+    // one very long component
+    t.push(format!("{}::{}", base, "ab".repeat(150 + rng.below(40) as usize)));
+    t.push(format!("{}{}", base, "b".repeat(300)));
+    // white space and an astral character around a configured name
+    t.push(format!(" {}", base));
+    t.push(format!("{} ", base));
+    t.push(format!("{}::😀", base));
+    t
+}
 
 fn rand_name(rng: &mut Rng, existing: &[String], max_depth: usize) -> String {
     let depth_of = |s: &str| s.split("::").count();
@@ -204,7 +232,7 @@ pub fn rand_cfg(rng: &mut Rng, max_loggers: u64, max_depth: usize) -> Cfg {
         (0..k).map(|_| rng.pick(&appenders).clone()).collect()
     };
     let root_level = rng.range(0, 5) as u8;
-    let root_refs = refs(rng, 2);
+    let root_refs = refs(rng, 3);
     let nlog = rng.range(0, max_loggers);
     let mut names: Vec<String> = vec![];
     let mut guard = 0;
@@ -218,7 +246,7 @@ pub fn rand_cfg(rng: &mut Rng, max_loggers: u64, max_depth: usize) -> Cfg {
     rng.shuffle(&mut names);
     let loggers = names
         .into_iter()
-        .map(|name| LCfg { name, level: rng.range(0, 5) as u8, additive: !rng.chance(1, 4), refs: refs(rng, 3) })
+        .map(|name| LCfg { name, level: rng.range(0, 5) as u8, additive: !rng.chance(1, 4), refs: refs(rng, 4) })
         .collect();
     Cfg { appenders, root_level, root_refs, loggers }
 }
@@ -242,6 +270,7 @@ pub fn targets_for(rng: &mut Rng, c: &Cfg, max: usize) -> Vec<String> {
     for s in SPECIAL_TARGETS {
         t.push(s.to_string());
     }
+    let odd = odd_targets(rng, c);
     for _ in 0..3 {
         let d = rng.range(1, 5);
         let parts: Vec<&str> = (0..d).map(|_| *rng.pick(COMPS)).collect();
@@ -251,7 +280,11 @@ pub fn targets_for(rng: &mut Rng, c: &Cfg, max: usize) -> Vec<String> {
     t.dedup();
     rng.shuffle(&mut t);
     // configured names and the special targets first in line when truncating
-    let mut keep: Vec<String> = c.loggers.iter().map(|l| l.name.clone()).collect();
+    let mut keep: Vec<String> = c.loggers.iter().take(max / 2).map(|l| l.name.clone()).collect();
+    // two of the odd targets (deep, long, white space, astral) in every case
+    let mut odd = odd;
+    rng.shuffle(&mut odd);
+    keep.extend(odd.into_iter().take(2));
     for x in t {
         if keep.len() >= max {
             break;
@@ -263,15 +296,31 @@ pub fn targets_for(rng: &mut Rng, c: &Cfg, max: usize) -> Vec<String> {
     keep
 }
 
-fn emit_case(c: &Cfg, probes: &[(String, u8)], emit: &mut dyn FnMut(String)) {
+fn enc_probes(probes: &[(String, u8)]) -> String {
     let ps: Vec<String> = probes.iter().map(|(t, l)| format!("{};{}", enc_str(t), l)).collect();
-    emit(format!("{}\t{}", c.encode(), enc_list(",", &ps)));
+    enc_list(",", &ps)
+}
+
+fn enc_failing(failing: &[String]) -> String {
+    let fs: Vec<String> = failing.iter().map(|a| enc_str(a)).collect();
+    enc_list(",", &fs)
+}
+
+fn emit_case(c: &Cfg, probes: &[(String, u8)], emit: &mut dyn FnMut(String)) {
+    emit(format!("{}\t{}", c.encode(), enc_probes(probes)));
 }
 
 fn emit_case_f(c: &Cfg, probes: &[(String, u8)], failing: &[String], emit: &mut dyn FnMut(String)) {
-    let ps: Vec<String> = probes.iter().map(|(t, l)| format!("{};{}", enc_str(t), l)).collect();
-    let fs: Vec<String> = failing.iter().map(|a| enc_str(a)).collect();
-    emit(format!("{}\t{}\t{}", c.encode(), enc_list(",", &ps), enc_list(",", &fs)));
+    emit(format!("{}\t{}\t{}", c.encode(), enc_probes(probes), enc_failing(failing)));
+}
+
+/// one case with two declarations of the same configuration (second = loggers / appender table reordered)
+fn emit_twin(c: &Cfg, d: &Cfg, probes: &[(String, u8)], failing: Option<&[String]>, emit: &mut dyn FnMut(String)) {
+    let f = match failing {
+        Some(f) => enc_failing(f),
+        None => "-".to_string(),
+    };
+    emit(format!("{}\t{}\t{}\t{}", c.encode(), enc_probes(probes), f, d.encode()));
 }
 
 pub fn shuffled(rng: &mut Rng, c: &Cfg) -> Cfg {
@@ -281,99 +330,152 @@ pub fn shuffled(rng: &mut Rng, c: &Cfg) -> Cfg {
     d
 }
 
-const POOL: &[&str] = &["a", "b", "a::b", "a::bb", "a::b::a", "ab", "a::a", "b::a", "a::b::a::b", "::a"];
+/// the first seven are the quick tier's pool for pairs
+const POOL: &[&str] = &["a", "a::b", "a::bb", "a::b::a", "a::b::a::b", "::a", "b", "ab", "a::a", "b::a"];
 const EX_TARGETS: &[&str] = &[
     "a", "b", "a::b", "a::bb", "a::b::a", "a::b::a::b", "a::b::a::b::a", "ab", "a::a", "b::a", "", "a::", "::a", "a:::b",
 ];
 
-/// every configuration with at most `k` loggers from the 10-name pool × 2 levels × additive × 2 attachments,
-/// declared longest name first (so a missing sort shows), probed on 14 targets × levels 1,3,5
-fn exhaustive(k: usize, failing: &[String], emit: &mut dyn FnMut(String)) {
-    let probes: Vec<(String, u8)> =
-        EX_TARGETS.iter().flat_map(|t| [1u8, 3, 5].iter().map(move |l| (t.to_string(), *l))).collect();
-    let n = POOL.len();
-    let mut subsets: Vec<Vec<usize>> = vec![vec![]];
-    for size in 1..=k {
-        let mut idx: Vec<usize> = (0..size).collect();
-        loop {
-            subsets.push(idx.clone());
-            let mut i = size;
-            while i > 0 && idx[i - 1] == n - size + i - 1 {
-                i -= 1;
-            }
-            if i == 0 {
-                break;
-            }
-            idx[i - 1] += 1;
-            for j in i..size {
-                idx[j] = idx[j - 1] + 1;
+#[derive(Clone, Copy, PartialEq)]
+enum Scope {
+    /// 2 thresholds × additive × attachment [x] | [y]                                  (8 per logger)
+    Narrow,
+    /// 2 thresholds × additive × attachments [] [x] [y] [r] [x,x] [x,r]                 (24 per logger)
+    Medium,
+    /// thresholds Off Error Debug Trace × additive × the same six attachment lists     (48 per logger)
+    Wide,
+}
+
+fn logger_options(scope: Scope) -> Vec<(u8, bool, Vec<String>)> {
+    let levels: &[u8] = if scope == Scope::Wide { &[0, 1, 4, 5] } else { &[1, 4] };
+    let atts: Vec<Vec<&str>> = if scope == Scope::Narrow {
+        vec![vec!["x"], vec!["y"]]
+    } else {
+        vec![vec![], vec!["x"], vec!["y"], vec!["r"], vec!["x", "x"], vec!["x", "r"]]
+    };
+    let mut v = vec![];
+    for l in levels {
+        for additive in [true, false] {
+            for a in &atts {
+                v.push((*l, additive, a.iter().map(|s| s.to_string()).collect()));
             }
         }
     }
-    for s in subsets {
+    v
+}
+
+fn subsets(n: usize, size: usize) -> Vec<Vec<usize>> {
+    let mut out = vec![];
+    if size == 0 {
+        return vec![vec![]];
+    }
+    if size > n {
+        return out;
+    }
+    let mut idx: Vec<usize> = (0..size).collect();
+    loop {
+        out.push(idx.clone());
+        let mut i = size;
+        while i > 0 && idx[i - 1] == n - size + i - 1 {
+            i -= 1;
+        }
+        if i == 0 {
+            break;
+        }
+        idx[i - 1] += 1;
+        for j in i..size {
+            idx[j] = idx[j - 1] + 1;
+        }
+    }
+    out
+}
+
+/// every configuration with exactly `size` loggers from the first `pool` names × the per-logger options of
+/// `scope`, root = (Info, [r]), appender table r x y; probed on 14 targets × the five levels.
+/// `both_orders`: declared longest name first (a missing sort shows) and also shortest first.
+fn exhaustive(size: usize, pool: usize, scope: Scope, both_orders: bool, failing: &[String], emit: &mut dyn FnMut(String)) {
+    let probes: Vec<(String, u8)> = EX_TARGETS.iter().flat_map(|t| (1u8..=5).map(move |l| (t.to_string(), l))).collect();
+    let opts = logger_options(scope);
+    let k = opts.len();
+    for s in subsets(pool.min(POOL.len()), size) {
         let mut names: Vec<&str> = s.iter().map(|i| POOL[*i]).collect();
         names.sort_by_key(|x| std::cmp::Reverse(x.len()));
-        let m = names.len();
-        for opts in 0..(8usize.pow(m as u32)) {
-            let loggers: Vec<LCfg> = names
+        for code in 0..k.pow(size as u32) {
+            let mut loggers: Vec<LCfg> = names
                 .iter()
                 .enumerate()
                 .map(|(i, name)| {
-                    let o = (opts >> (3 * i)) & 7;
-                    LCfg {
-                        name: name.to_string(),
-                        level: if o & 1 == 0 { 1 } else { 4 },
-                        additive: o & 2 == 0,
-                        refs: vec![if o & 4 == 0 { "x".to_string() } else { "y".to_string() }],
-                    }
+                    let o = &opts[(code / k.pow(i as u32)) % k];
+                    LCfg { name: name.to_string(), level: o.0, additive: o.1, refs: o.2.clone() }
                 })
                 .collect();
-            let c = Cfg {
-                appenders: vec!["r".into(), "x".into(), "y".into()],
-                root_level: 3,
-                root_refs: vec!["r".into()],
-                loggers,
-            };
-            if failing.is_empty() {
-                emit_case(&c, &probes, emit);
-            } else {
-                emit_case_f(&c, &probes, failing, emit);
+            for order in 0..(if both_orders && size >= 2 { 2 } else { 1 }) {
+                if order == 1 {
+                    loggers.reverse();
+                }
+                let c = Cfg {
+                    appenders: vec!["r".into(), "x".into(), "y".into()],
+                    root_level: 3,
+                    root_refs: vec!["r".into()],
+                    loggers: loggers.clone(),
+                };
+                if failing.is_empty() {
+                    emit_case(&c, &probes, emit);
+                } else {
+                    emit_case_f(&c, &probes, failing, emit);
+                }
             }
         }
     }
 }
 
 pub fn gen(rng: &mut Rng, n: usize, thorough: bool, emit: &mut dyn FnMut(String)) {
-    // exhaustive small-scope block
-    exhaustive(if thorough { 3 } else { 2 }, &[], emit);
-    // the same small scope with a failing appender in front of / behind the healthy ones
-    exhaustive(2, &["x".to_string()], emit);
-    exhaustive(if thorough { 2 } else { 1 }, &["r".to_string(), "y".to_string()], emit);
-    // random stream: each configuration twice, as declared and shuffled
+    // exhaustive small-scope blocks
+    exhaustive(0, 10, Scope::Wide, false, &[], emit);
+    exhaustive(1, 10, Scope::Wide, false, &[], emit);
+    if thorough {
+        exhaustive(2, 10, Scope::Wide, true, &[], emit);
+        exhaustive(3, 10, Scope::Narrow, false, &[], emit);
+    } else {
+        exhaustive(2, 7, Scope::Medium, true, &[], emit);
+    }
+    // small scope with a failing appender in front of / behind the healthy ones
+    let fx = ["x".to_string()];
+    let fry = ["r".to_string(), "y".to_string()];
+    exhaustive(1, 10, Scope::Wide, false, &fx, emit);
+    exhaustive(1, 10, Scope::Wide, false, &fry, emit);
+    exhaustive(2, if thorough { 10 } else { 7 }, Scope::Narrow, false, &fx, emit);
+    if thorough {
+        exhaustive(2, 10, Scope::Medium, false, &fry, emit);
+    }
+    // random stream: each configuration in two declarations (as generated, and loggers / appender table shuffled)
     for i in 0..n {
-        let (max_loggers, max_depth) = if thorough && i % 4 == 0 { (9, 6) } else { (6, 4) };
+        let (max_loggers, max_depth) = if thorough && i % 16 == 5 {
+            (40, 10)
+        } else if thorough && i % 4 == 0 {
+            (12, 6)
+        } else {
+            (6, 4)
+        };
         let c = rand_cfg(rng, max_loggers, max_depth);
-        let targets = targets_for(rng, &c, if thorough { 24 } else { 14 });
+        let targets = targets_for(rng, &c, if thorough { 26 } else { 16 });
         let mut probes: Vec<(String, u8)> = vec![];
         for t in &targets {
             for l in 1..=5u8 {
                 probes.push((t.clone(), l));
             }
         }
+        let d = shuffled(rng, &c);
         if i % 3 == 2 {
             // some appenders return Err: the others must still be called, the failures reported
             let mut failing: Vec<String> = c.appenders.iter().filter(|_| rng.chance(1, 2)).cloned().collect();
             if failing.is_empty() {
                 failing.push(c.appenders[0].clone());
             }
-            emit_case_f(&c, &probes, &failing, emit);
-            let d = shuffled(rng, &c);
-            emit_case_f(&d, &probes, &failing, emit);
-            continue;
+            emit_twin(&c, &d, &probes, Some(&failing), emit);
+        } else {
+            emit_twin(&c, &d, &probes, None, emit);
         }
-        emit_case(&c, &probes, emit);
-        let d = shuffled(rng, &c);
-        emit_case(&d, &probes, emit);
     }
 }
 
@@ -381,10 +483,10 @@ pub fn gen(rng: &mut Rng, n: usize, thorough: bool, emit: &mut dyn FnMut(String)
 // execution on the real code
 // ------------------------------------------------------------------------------------------------
 pub fn exec(fields: &[&str]) -> String {
-    if fields.len() != 5 && fields.len() != 6 {
+    if fields.len() != 5 && fields.len() != 6 && fields.len() != 10 {
         return "bad-case".to_owned();
     }
-    let failing: Option<Vec<String>> = if fields.len() == 6 {
+    let failing: Option<Vec<String>> = if fields.len() >= 6 && fields[5] != "-" {
         match dec_list(',', fields[5]).iter().map(|x| dec_str(x)).collect::<Option<Vec<String>>>() {
             Some(f) => Some(f),
             None => return "bad-case".to_owned(),
@@ -407,9 +509,22 @@ pub fn exec(fields: &[&str]) -> String {
             _ => return "bad-case".to_owned(),
         }
     }
+    let first = run_one(&cfg, &failing, &probes);
+    if fields.len() == 10 {
+        let twin = match Cfg::decode(&fields[6..10]) {
+            Some(c) => c,
+            None => return "bad-case".to_owned(),
+        };
+        return format!("{}#{}", first, run_one(&twin, &failing, &probes));
+    }
+    first
+}
+
+/// one `Logger` built from `cfg`, all probes logged through it in order
+fn run_one(cfg: &Cfg, failing: &Option<Vec<String>>, probes: &[(String, u8)]) -> String {
     let sink = Arc::new(Mutex::new(Vec::<String>::new()));
     let errs = Arc::new(Mutex::new(Vec::<String>::new()));
-    let config = match build_config_f(&cfg, &sink, failing.as_deref().unwrap_or(&[])) {
+    let config = match build_config_f(cfg, &sink, failing.as_deref().unwrap_or(&[])) {
         Ok(c) => c,
         Err(_) => return "INVALID".to_owned(),
     };
@@ -430,7 +545,7 @@ pub fn exec(fields: &[&str]) -> String {
             log4rs::Logger::new(config)
         };
         let mut out: Vec<String> = vec![];
-        for (t, l) in &probes {
+        for (t, l) in probes {
             sink2.lock().unwrap().clear();
             errs2.lock().unwrap().clear();
             logger.log(&Record::builder().target(t).level(level_of(*l)).args(format_args!("x")).build());
